@@ -68,7 +68,7 @@ variants = {
     "hs-full": dict(Hs=["h1"], Rd=["r1"], Cl=["k1"], PeerScript="PS_hs_hs_cn"),
 }
 QUICK = [k for k in variants if k not in ("data-rwk", "hs-full", "data-fatal", "data-srvhs", "data-dl", "data-rkk", "hs-hkk")]
-LIVEQUICK = ["hs-hk", "hs-hk13", "hs-fatal", "hs-cn", "hs-bad", "hs-dl", "data-dl13"]
+LIVEQUICK = ["hs-hk", "hs-fatal", "hs-cn", "data-dl13"]
 for k, v in variants.items():
     tier = "quick" if k in QUICK else "thorough"
     write("Lifecycle.%s.safe.%s.cfg" % (k, tier), v, "safe")
@@ -76,11 +76,11 @@ for k, v in variants.items():
     write("Lifecycle.%s.live.%s.cfg" % (k, tier), v, "live")
 # small data-phase instances for the quick liveness run
 write("Lifecycle.data-rk-s.live.quick.cfg", dict(D, Rd=["r1"], Cl=["k1"], PeerScript="PS_cn"), "live")
-write("Lifecycle.data-wk-s.live.quick.cfg", dict(D, Wr=["w1"], Cl=["k1"], PeerScript="PS_none"), "live")
+write("Lifecycle.data-wk-s.live.thorough.cfg", dict(D, Wr=["w1"], Cl=["k1"], PeerScript="PS_none"), "live")
 write("Lifecycle.data-wk13-s.live.quick.cfg", dict(D, **V13, Wr=["w1"], Cl=["k1"], PeerScript="PS_none"), "live")
-write("Lifecycle.data-kk-s.live.quick.cfg", dict(D, Cl=["k1", "k2"], PeerScript="PS_none"), "live")
+write("Lifecycle.data-kk-s.live.thorough.cfg", dict(D, Cl=["k1", "k2"], PeerScript="PS_none"), "live")
 write("Lifecycle.data-fatal-s.live.quick.cfg", dict(D, Rd=["r1"], PeerScript="PS_fatal"), "live")
-write("Lifecycle.data-block-s.live.quick.cfg", dict(D, Wr=["w1"], Cl=["k1"], TransportBlocks=True), "live")
+write("Lifecycle.data-block-s.live.thorough.cfg", dict(D, Wr=["w1"], Cl=["k1"], TransportBlocks=True), "live")
 # generation
 gens = {
     "data-rk": dict(D, Rd=["r1"], Cl=["k1"], PeerScript="PS_app_cn"),
@@ -89,6 +89,7 @@ gens = {
     "data-fatal": dict(D, Rd=["r1"], Cl=["k1"], PeerScript="PS_fatal"),
     "data-dl": dict(D, Rd=["r1"], Wr=["w1"], Dl=["d1"], PeerScript="PS_app"),
     "data-rwkk": dict(D, Rd=["r1"], Wr=["w1"], Cl=["k1", "k2"], PeerScript="PS_none"),
+    "data-rwk": dict(D, Rd=["r1"], Wr=["w1"], Cl=["k1"], PeerScript="PS_none"),
     "hs-hk": dict(Hs=["h1"], Cl=["k1"], PeerScript="PS_hs_hs"),
     "hs-rk": dict(Rd=["r1"], Cl=["k1"], PeerScript="PS_hs_hs"),
     "hs-wk": dict(Wr=["w1"], Cl=["k1"], PeerScript="PS_hs_hs"),
@@ -98,7 +99,7 @@ gens = {
     "hs-dl": dict(Hs=["h1"], Dl=["d1"], HsCtxDeadline=True, PeerScript="PS_hs"),
 }
 for k, v in gens.items():
-    write("Lifecycle.%s.gen.cfg" % k, dict(v, Record=True), "gen")
+    write("Lifecycle.%s.gen.%s" % (k, "thorough.cfg" if k == "data-rwkk" else "cfg"), dict(v, Record=True), "gen")
 # broken variants TLC must reject
 write("Lifecycle.broken.nolock.cfg", dict(D, Cl=["k1", "k2"], UseCloseLock=False), "safe", inv="CloseIdempotent CloseNotifyAtMostOnce")
 write("Lifecycle.broken.closedec.cfg", dict(D, Rd=["r1"], Cl=["k1"], PeerScript="PS_app_app", ReaderClosesDecrypted=False), "safe")
